@@ -2,7 +2,7 @@
    one case, comparing with the projected observables of the implementation. *)
 From Coq Require Import List NArith Bool.
 From Verif Require Import Outcome Cmp.
-From C14 Require Import Model.
+From C14 Require Import Model Float.
 Import ListNotations.
 Open Scope N_scope.
 
@@ -30,13 +30,15 @@ Fixpoint sub_lookup (tab : subtab) (t h : N) : N :=
   | (t', h', v) :: r => if (t =? t') && (h =? h') then v else sub_lookup r t h
   end.
 
-(* the value of the implementation's float formula against the exact-rational
-   specification: within one unit, and within the bounds *)
+(* the value of the implementation's float formula: equal, bit for bit, to the Flocq
+   binary64 model [validator_reward]; within one unit of the exact-rational
+   specification; within the bounds *)
 Definition sub_entry_ok (e : N * N * N) : bool :=
   match e with
   | (t, h, v) =>
       let s := subsidy_spec t h in
-      (s <=? v + 1) && (v <=? s + 1) && (BlockReward / 2 <=? v) && (v <=? BlockReward)
+      (validator_reward t h =? v)
+      && (s <=? v + 1) && (v <=? s + 1) && (BlockReward / 2 <=? v) && (v <=? BlockReward)
   end.
 
 (* ---- canonical dump of a reward table: sorted by program label -------------- *)
@@ -56,11 +58,13 @@ Definition rsort (m : rmap) : rmap := fold_right ins_sorted [] m.
      total:   BTM in the utxo set at the end
      ok:      every supplied subsidy value passes [sub_entry_ok]
    RK classes: a list of result classes (direct calls of checkCoinbaseAmount)
-   RS ok: subsidy entries only *)
+   RS ok: subsidy entries only
+   RO outs: the (program, amount) output lists of createCoinbaseTx *)
 Inductive res :=
 | RC (classes : list N) (tables : list (N * rmap)) (total : N) (ok : bool)
 | RK (classes : list N)
-| RS (ok : bool).
+| RS (ok : bool)
+| RO (outs : list (list (prog * N))).
 
 Definition class_of {A} (r : outcome err A) : N :=
   match r with Ok _ => 0 | Err _ => 1 | Panic _ => 2 end.
@@ -99,6 +103,13 @@ Definition run_checks (cs : list (N * N * list tx * rmap)) : res :=
 
 Definition run_subs (tab : subtab) : res := RS (forallb sub_entry_ok tab).
 
+(* the proposer's coinbase: (E, height, own program, the reward table in iteration order) *)
+Definition run_creates (cs : list (N * N * prog * rmap)) : res :=
+  RO (map (fun c => match c with
+                    | (E, h, script, iter) =>
+                        map (fun o => (o_prog o, o_amt o)) (create_coinbase E h script iter)
+                    end) cs).
+
 (* ---- equality of results -------------------------------------------------------- *)
 
 Definition pair_eqb (a b : prog * N) : bool := (fst a =? fst b) && (snd a =? snd b).
@@ -110,5 +121,6 @@ Definition res_eqb (x y : res) : bool :=
       list_eqb N.eqb c1 c2 && list_eqb tab_eqb t1 t2 && (n1 =? n2) && Bool.eqb o1 o2
   | RK c1, RK c2 => list_eqb N.eqb c1 c2
   | RS a, RS b => Bool.eqb a b
+  | RO a, RO b => list_eqb (list_eqb pair_eqb) a b
   | _, _ => false
   end.
